@@ -69,7 +69,7 @@ func init() {
 		},
 	}
 	cfgs["C20"] = &propCfg{
-		quickRuns: 20000, thoroughRuns: 2400000,
+		quickRuns: 30000, thoroughRuns: 4000000,
 		quickBudget: 150 * time.Second, thoroughBudget: 14 * time.Minute,
 		raceShare: 2, singleProc: true, freshEvery: 16,
 		requiredProbes: []string{
